@@ -258,6 +258,7 @@ def epr_context_measure(conn, sock):
 
 def _noop_post(conn, q, pair):
     q.H()
+    q.measure()
 
 
 def epr_receive(conn, sock, variant, number, expect_phi_plus, extra_qubits):
